@@ -4,6 +4,7 @@
   "never returns `Err`" fact (QV.Proofs.ServerNoErr).
 -/
 import QV.Proofs.ServerQuery
+import QV.Proofs.WriterV0
 import QV.Proofs.ServerNoErr
 import QV.Proofs.HmacLen
 
@@ -17,7 +18,7 @@ variable (W : WriterSafe)
 theorem noErr_get : NoErr M.get := ⟨fun _ _ => by simp [M.get]⟩
 
 theorem noErr_finishWithMac (macFn : Writer.Tsig → List UInt8 → List UInt8) : NoErr (finishWithMac macFn) := by
-  unfold finishWithMac
+  rw [finishWithMac_v0]; unfold V0.finishWithMac
   refine noErr_bind noErr_get (fun s => ?_)
   dsimp only
   repeat' (first
